@@ -170,6 +170,60 @@ pub fn check_doc(v: &RVal, acc: &mut Acc, ext: bool) {
             }
         }
     }
+    // the same questions asked of the decoded tree (Value's own accessors)
+    if let Some(Ok(tree)) = g!("from_slice", jsonb::from_slice(&b)) {
+        if let Some(r) = g!("Value::array_length", tree.array_length()) {
+            if r != ops::array_length(v) {
+                acc.vio("Value::array_length:wrong", || json!({"ctx": ctxv(), "observed": r}));
+            }
+        }
+        if let Some(r) = g!("Value::object_keys", tree.object_keys().map(|k| k.to_vec())) {
+            sub_ok("Value::object_keys", &r, &ops::object_keys(v), acc, &ctxv);
+        }
+        for name in names_for(v) {
+            if let Some(r) = g!("Value::get_by_name_ignore_case", tree.get_by_name_ignore_case(&name).map(|x| x.to_vec())) {
+                sub_ok("Value::get_by_name_ignore_case", &r, &ops::get_by_name(v, &name, true), acc, &|| json!({"ctx": ctxv(), "name": name}));
+            }
+        }
+        let kinds = (tree.is_null(), tree.is_boolean(), tree.is_number(), tree.is_string(), tree.is_array(), tree.is_object(), tree.is_scalar());
+        let exp = (
+            matches!(v, RVal::Null),
+            matches!(v, RVal::Bool(_)),
+            matches!(v, RVal::Num(_)),
+            matches!(v, RVal::Str(_)),
+            matches!(v, RVal::Arr(_)),
+            matches!(v, RVal::Obj(_)),
+            !matches!(v, RVal::Arr(_) | RVal::Obj(_)),
+        );
+        acc.eval();
+        if kinds != exp {
+            acc.vio("Value::is_*:wrong", || json!({"ctx": ctxv(), "observed": format!("{:?}", kinds)}));
+        }
+        acc.eval();
+        let views = (tree.as_null().is_some(), tree.as_bool(), tree.as_str().map(|s| s.to_string()), tree.as_array().map(|a| a.len()), tree.as_object().map(|o| o.len()));
+        let expv = (
+            matches!(v, RVal::Null),
+            if let RVal::Bool(x) = v { Some(*x) } else { None },
+            if let RVal::Str(s) = v { Some(s.clone()) } else { None },
+            if let RVal::Arr(a) = v { Some(a.len()) } else { None },
+            if let RVal::Obj(o) = v { Some(o.len()) } else { None },
+        );
+        if views != expv {
+            acc.vio("Value::as_*:wrong", || json!({"ctx": ctxv(), "observed": format!("{:?}", views)}));
+        }
+        if let RVal::Num(n) = v {
+            acc.eval();
+            let got = (tree.as_u64(), tree.as_i64(), tree.is_u64(), tree.is_i64(), tree.is_f64());
+            let expn = match n {
+                RNum::U(u) => (Some(*u), i64::try_from(*u).ok(), true, i64::try_from(*u).is_ok(), true),
+                RNum::I(i) => (u64::try_from(*i).ok(), Some(*i), u64::try_from(*i).is_ok(), true, true),
+                RNum::F(_) => (None, None, false, false, true),
+            };
+            if got != expn {
+                acc.vio("Value::number-views:wrong", || json!({"ctx": ctxv(), "observed": format!("{:?}", got), "expected": format!("{:?}", expn)}));
+            }
+        }
+    }
     // get_by_keypath
     for path in keypaths(v, v.depth() + 1, ext) {
         let kp: Vec<KeyPath> = path.iter().map(to_keypath).collect();
